@@ -657,10 +657,44 @@ def check(run: Run) -> None:
                                         "the old generation are left running when the collection shrinks", loc=fa_.loc(c))
         run.sites(n_sw, 1, "generation swaps that stop the retired generation")
 
+    with run.obligation("C14.j", "K2", "switch_: the branch being replaced is looked up BEFORE the active slot is cleared - storage.active_graph() answers from active_slot, "
+                        "so a lookup after `active_slot.reset()` finds nothing and the `stop` guarded by it is silently skipped (two branch graphs live, the old one "
+                        "stopped only when its slot is recycled or the executor is released); both the teardown helper and the hand-inlined forwarding arm of "
+                        "activate_branch obey it, and each reaches a stop of the looked-up graph"):
+        SWN = RT + "switch_node.cpp"
+        n_fn = 0
+        for fd_ in t.file(SWN).funcs:
+            if fd_.body is None or "active_slot . reset" not in t.file(SWN).text(fd_.body[0], fd_.body[1]):
+                continue
+            fa_ = R.parse(run, fd_)
+            fl_ = R.flow(run, fa_)
+            n_fn += 1
+            reset = R.call_is(callee=r".*active_slot\.reset")
+            lookup = R.call_is(name="active_graph")
+            assign = R.store_is(r".*active_slot", None)
+            if not fl_.nodes_of(reset):
+                continue
+            run.count(1, "C14.j")
+            w = fl_.reach(fl_.states_of(reset), targets=lookup, avoid=assign)
+            if w is not None:
+                run.finding("C14.j", f"{fd_.name}:active-graph-read-after-slot-reset", f"{fd_.qual}: storage.active_graph() is read after active_slot.reset() (and before "
+                            f"active_slot is assigned again): it returns nullptr there, so the stop of the replaced branch that depends on it never runs: {fl_.path_text(w)}",
+                            loc=fl_.cfg.describe(w[-1][0]))
+            w = fl_.must_precede(lookup, reset)
+            if w is not None:
+                run.finding("C14.j", f"{fd_.name}:slot-reset-without-lookup", f"{fd_.qual}: active_slot is cleared on a path on which the active branch was never looked up "
+                            f"(nothing can stop it afterwards): {fl_.path_text(w)}", loc=fl_.cfg.describe(w[-1][0]))
+            stops = [c for c in R.calls(fa_, "stop") if "active" in R.Canon()(c.fn)]
+            if not stops:
+                run.finding("C14.j", f"{fd_.name}:no-stop-of-replaced-branch", f"{fd_.qual} clears the active slot but never stops the graph it looked up", loc=fa_.loc(fa_.body))
+        run.sites(n_fn, 2, "functions that clear the active slot")
+
 
 ANYARGS = ("anyargs",)
 
+
 VARIANTS = [
+    {"id": "j-seed-C14-6-lookup-after-reset", "expect": "C14.j", "edits": [{"file": RT + "switch_node.cpp", "find": "    GraphValue *active = storage.active_graph();\n    bind_branch_output(view, context, spec, next, evaluation_time, true);\n    if (active != nullptr && active->has_value()) {\n      active->view().stop(evaluation_time);\n    }\n    storage.previous_slot = storage.active_slot;\n    storage.active_slot.reset();\n    storage.active_key = Value{};\n    storage.active_spec = nullptr;", "replace": "    bind_branch_output(view, context, spec, next, evaluation_time, true);\n    storage.previous_slot = storage.active_slot;\n    storage.active_slot.reset();\n    storage.active_key = Value{};\n    storage.active_spec = nullptr;\n    if (GraphValue *active = storage.active_graph();\n        active != nullptr && active->has_value()) {\n      active->view().stop(evaluation_time);\n    }"}]},
     {"id": "i-retired-generation-stopped-with-new-count", "expect": "C14.i", "edits": [{"file": "src/hgraph/runtime/ordered_reduce_node.cpp", "find": "            storage.stop_generation(old_bank, old_count);\n            storage.current_bank = next_bank;\n            storage.live_count = next_count;\n", "replace": "            storage.current_bank = next_bank;\n            storage.live_count = next_count;\n            storage.stop_generation(old_bank, storage.live_count);\n"}]},
     {"id": "i-twin-stop-after-commit-with-snapshots", "expect": None, "edits": [{"file": "src/hgraph/runtime/ordered_reduce_node.cpp", "find": "            storage.stop_generation(old_bank, old_count);\n            storage.current_bank = next_bank;\n            storage.live_count = next_count;\n", "replace": "            storage.current_bank = next_bank;\n            storage.live_count = next_count;\n            storage.stop_generation(old_bank, old_count);\n"}]},
     {"id": "g-stop-guard-is-plain-scope-exit", "expect": "C14.g", "edits": [{"file": EXEC, "find": "            auto stop_graph = UnwindCleanupGuard([&] {", "replace": "            auto stop_graph = make_scope_exit([&] {"}, {"file": EXEC, "find": "\n            stop_graph.complete();\n", "replace": "\n"}]},
